@@ -578,6 +578,21 @@ def unsuitable_keys_family(fz: Fz, rng):
                         fz.run("key-kind", name, lambda ep=ep: ep(tc), d)
                     for name, ep in jwe_json_eps(j, k, [alg, enc], js)[:1]:
                         fz.run("key-kind", name, lambda ep=ep: ep(tf), {**d, "form": "flat"})
+                    if g.is_ecdh(alg):
+                        # the attacker knows the verifier's key type: an "epk" that is a well-formed public JWK of that very type
+                        own = gen.public_jwk(kj) if kj["kty"] != "oct" else {"kty": "oct", "k": "AAAAAAAAAAAAAAAAAAAAAA"}
+                        p5 = tc.split(".")
+                        h5 = json.loads(b64u_dec(p5[0]))
+                        h5["epk"] = own
+                        t_own = ".".join([hdr64(h5)] + p5[1:])
+                        for name, ep in jwe_eps(j, k, [alg, enc], js)[:1]:
+                            fz.run("key-kind", name, lambda ep=ep, t_own=t_own: ep(t_own), {**d, "epk": "of-the-verifiers-key-type"})
+                        tfo = copy.deepcopy(tf)
+                        tfo.setdefault("header", {})
+                        if "epk" in tfo["header"]:
+                            tfo["header"]["epk"] = own
+                            for name, ep in jwe_json_eps(j, k, [alg, enc], js)[:1]:
+                                fz.run("key-kind", name, lambda ep=ep, tfo=tfo: ep(tfo), {**d, "form": "flat", "epk": "of-the-verifiers-key-type"})
         if fz.ctx.out_of_time():
             return
 
